@@ -249,12 +249,24 @@ def header_text(h):
 
 
 def definitions(case, naive=False):
-    """[(pattern, hosts, method)] in definition order, localhost first."""
-    defs = [('localhost', ['localhost'], 'definition order')]
+    """[(pattern, hosts, method)] in definition order, localhost first.
+
+    A name that occurs in several headers (only possible for the fragments
+    of the naive split) is one section: it keeps its first position and
+    later headers override the settings they define, as parsec does.
+    """
+    order = ['localhost']
+    table = {'localhost': [['localhost'], 'definition order']}
     for h in case['headers']:
         for alt in split_commas(header_text(h), naive):
-            defs.append((alt, list(h['hosts']), h['method'] or 'random'))
-    return defs
+            if alt not in table:
+                order.append(alt)
+                table[alt] = [[], None]
+            if h['hosts']:
+                table[alt][0] = list(h['hosts'])
+            if h['method']:
+                table[alt][1] = h['method']
+    return [(k, table[k][0], table[k][1] or 'random') for k in order]
 
 
 def resolve_platform(defs, name):
